@@ -27,8 +27,12 @@ structure DS where
   prevDisk : Disk
   lastCache : Cache
   lastBatches : List (List Hash)
+  /-- `insl?` candidates: account-leaf nodes that were already cached when a later
+      `state.Commit` produced them again; the leaf callback ran again iff the hasher
+      stored the node again, which the exported API does not show -/
+  pending : List (Hash × CNode × Hash × Hash)
 
-def DS.init : DS := ⟨St.empty, [], [], []⟩
+def DS.init : DS := ⟨St.empty, [], [], [], []⟩
 
 def hashOf? (s : String) : Option Hash := (ofHex? s).map beToNat
 
@@ -102,7 +106,7 @@ def doCommit (ds : DS) (root : Hash) (failAt : Option Nat) (observed : List Hash
     | none => ds.st
   match commit s1 root failAt (s1.cache.length + 1), Rangers.Model.TrieDB.step emptyH emptyH s1 (.commit root failAt) with
   | some out, some s' =>
-    ({ st := s', prevDisk := ds.st.disk, lastCache := s1.cache, lastBatches := out.written },
+    ({ ds with st := s', prevDisk := ds.st.disk, lastCache := s1.cache, lastBatches := out.written },
      (if out.ok then "ok " else "err ") ++ showBatches out.written)
   | _, _ => (ds, "diverges")
 
@@ -118,7 +122,7 @@ def doCommitLoose (ds : DS) (root : Hash) (failAt : Option Nat) (obs : List (Lis
   if ans == want then (ds1, ans) else
   let disk' := applyBatches ds.st.cache ds.st.disk obs
   let cache' := if failAt.isSome then ds.st.cache else uncache ds.st.cache obs.flatten
-  ({ st := ⟨cache', disk'⟩, prevDisk := ds.st.disk, lastCache := ds.st.cache, lastBatches := obs }, "unmodelled")
+  ({ ds with st := ⟨cache', disk'⟩, prevDisk := ds.st.disk, lastCache := ds.st.cache, lastBatches := obs }, "unmodelled")
 
 /-- Go randomises map iteration per `range` statement, so a node that the walk
     visits twice (an identical subtree under two parents) may see its external
@@ -135,10 +139,32 @@ def doCommitStrict (ds : DS) (root : Hash) (failAt : Option Nat) (obs : List (Li
     doCommitLoose ds root failAt obs refused
   else doCommit ds root failAt (obs.flatten ++ refused) failAt.isSome
 
+def subsetsOf {α : Type} : List α → List (List α)
+  | [] => [[]]
+  | x :: xs => let r := subsetsOf xs; r ++ r.map (x :: ·)
+
+/-- Resolve the `insl?` candidates against the observed writes: each candidate
+    is either a real `store` step (the hasher stored the node again, so the leaf
+    callback ran again) or no step at all; both are behaviours of the code, the
+    observed Put sequence tells which one happened.  Every state change still
+    goes through `step`. -/
+def withPending (ds : DS) (want : String) (run : DS → DS × String) : DS × String :=
+  if ds.pending.isEmpty then run ds else
+  let base := { ds with pending := [] }
+  let cands := if ds.pending.length ≤ 8 then subsetsOf ds.pending else [[], ds.pending]
+  let tryOne := fun (sub : List (Hash × CNode × Hash × Hash)) =>
+    let st' := sub.foldl (fun st c =>
+      (Rangers.Model.TrieDB.step emptyH emptyH st (.store c.1 c.2.1 (some (c.2.2.1, c.2.2.2)))).getD st) base.st
+    let r := run { base with st := st' }
+    if r.2 == want then some r else none
+  match cands.findSome? tryOne with
+  | some r => r
+  | none => run base
+
 def lineStep (ds : DS) (line : String) : DS × String :=
   match splitWords line with
   | ["reset"] => (DS.init, "ok")
-  | ["die"] => ({ ds with st := (Rangers.Model.TrieDB.step emptyH emptyH ds.st .die).getD ds.st }, "ok")
+  | ["die"] => ({ ds with pending := [], st := (Rangers.Model.TrieDB.step emptyH emptyH ds.st .die).getD ds.st }, "ok")
   | ["ins", h, _, size, tag, inner, need] =>
     match hashOf? h, size.toNat?, tag.toNat?, hashList? inner, hashList? need with
     | some h, some sz, some tg, some inn, some nd => doIns ds h ⟨sz, tg, inn, [], nd⟩ none
@@ -146,6 +172,11 @@ def lineStep (ds : DS) (line : String) : DS × String :=
   | ["insl", h, _, size, tag, inner, need, root, code] =>
     match hashOf? h, size.toNat?, tag.toNat?, hashList? inner, hashList? need, hashOf? root, hashOf? code with
     | some h, some sz, some tg, some inn, some nd, some r, some cd => doIns ds h ⟨sz, tg, inn, [], nd⟩ (some (r, cd))
+    | _, _, _, _, _, _, _ => (ds, "bad-op")
+  | ["insl?", h, _, size, tag, inner, need, root, code] =>
+    match hashOf? h, size.toNat?, tag.toNat?, hashList? inner, hashList? need, hashOf? root, hashOf? code with
+    | some h, some sz, some tg, some inn, some nd, some r, some cd =>
+      ({ ds with pending := ds.pending ++ [(h, ⟨sz, tg, inn, [], nd⟩, r, cd)] }, "ok")
     | _, _, _, _, _, _, _ => (ds, "bad-op")
   | ["ref", child, parent] =>
     match hashOf? child, hashOf? parent with
@@ -156,19 +187,19 @@ def lineStep (ds : DS) (line : String) : DS × String :=
     | _, _ => (ds, "bad-op")
   | ["commit", root, obs] =>
     match hashOf? root, batches? obs with
-    | some r, some bs => doCommitStrict ds r none bs []
+    | some r, some bs => withPending ds ("ok " ++ showBatches bs) fun d => doCommitStrict d r none bs []
     | _, _ => (ds, "bad-op")
   | ["fail", root, k, obs, refused] =>
     match hashOf? root, k.toNat?, batches? obs, hashList? refused with
-    | some r, some k, some bs, some rf => doCommitStrict ds r (some k) bs rf
+    | some r, some k, some bs, some rf => withPending ds ("err " ++ showBatches bs) fun d => doCommitStrict d r (some k) bs rf
     | _, _, _, _ => (ds, "bad-op")
   | ["commit?", root, obs] =>
     match hashOf? root, batches? obs with
-    | some r, some bs => doCommitLoose ds r none bs []
+    | some r, some bs => withPending ds ("ok " ++ showBatches bs) fun d => doCommitLoose d r none bs []
     | _, _ => (ds, "bad-op")
   | ["fail?", root, k, obs, refused] =>
     match hashOf? root, k.toNat?, batches? obs, hashList? refused with
-    | some r, some k, some bs, some rf => doCommitLoose ds r (some k) bs rf
+    | some r, some k, some bs, some rf => withPending ds ("err " ++ showBatches bs) fun d => doCommitLoose d r (some k) bs rf
     | _, _, _, _ => (ds, "bad-op")
   | ["prefix", j, roots] =>
     match j.toNat?, hashList? roots with
